@@ -54,6 +54,8 @@ var c16Toks = []string{
 	"bogus-action",                        // 16
 	"\n",                                  // 17
 	"\xff",                                // 18
+	"Content-Length: 0x2\r\n",             // 19 not a decimal number: refused (a lenient radix would read 2)
+	"Content-Length: 02\r\n",              // 20 decimal 2 with a leading zero
 }
 
 // ---------------------------------------------------------------- scripted connection
